@@ -279,12 +279,12 @@ def load_image(inf, spacing=None, medium_index=None, illum_wavelen=None,
         if arr.ndim > 2:
             raise BadImage('Not a greyscale image. You must specify which channel(s) to use')
     elif arr.ndim == 2:
-            if not channel == 'all':
+            if not (isinstance(channel, str) and channel == 'all'):
                 warnings.warn("Not a color image (channel number ignored)")
             pass
     else:
         # color image with specified channel(s)
-        if channel == 'all':
+        if isinstance(channel, str) and channel == 'all':
             channel = range(arr.shape[2])
         channel = ensure_array(channel)
         if channel.max() >= arr.shape[2]:
